@@ -225,8 +225,11 @@ class Report:
                   assumptions=(assumptions or []) + self.assumptions, wall_s=round(wall, 1),
                   violations=len(self.violations))
         ev.update(self.extra)
-        os.makedirs(os.path.join(VERIF, 'evidence'), exist_ok=True)
-        with open(os.path.join(VERIF, 'evidence', '%s.json' % self.prop), 'w') as f:
+        # evidence describes runs against /repo itself; a run against another tree (VERIF_REPO = a scratch worktree with a seeded change) keeps its
+        # record apart
+        evdir = 'evidence' if os.environ.get('VERIF_REPO', '/repo') == '/repo' else 'evidence_scratch'
+        os.makedirs(os.path.join(VERIF, evdir), exist_ok=True)
+        with open(os.path.join(VERIF, evdir, '%s.json' % self.prop), 'w') as f:
             json.dump(ev, f, indent=1, default=str)
         seen = set()
         for key, text in self.known:
